@@ -38,12 +38,12 @@ type universe struct {
 func casUniverse(inst string) universe {
 	u := universe{}
 	u.objs = []lstore.Obj{
-		lstore.CASObj("A3", inst, []byte("aaa")),
-		lstore.CASObj("B5", inst, []byte("bbbbb")),
-		lstore.CASObj("C8", inst, []byte("cccccccc")),
+		lstore.CASObj("A3", inst, []byte("aXy")),
+		lstore.CASObj("B5", inst, []byte("b1234")),
+		lstore.CASObj("C8", inst, []byte("c7654321")),
 		lstore.CASObj("E0", inst, []byte("")),
 	}
-	u.parent = lstore.CASObj("P8", inst, []byte("pppqqqqq"))
+	u.parent = lstore.CASObj("P8", inst, []byte("pqrstuvw"))
 	u.slicer = lstore.NewFixedSlicer(inst, u.parent.Content, 3)
 	return u
 }
@@ -155,6 +155,24 @@ func casOps(u universe, hier bool) []op {
 	put(a3, "WrongHash", lstore.PutSpec{Chunks: [][]byte{[]byte("aXa")}}, false)
 	put(b5, "SrcErr", lstore.PutSpec{Chunks: [][]byte{b5.Content[:4]}, FinalErr: lstore.ErrSource}, false)
 	put(u.objs[2], "Long", lstore.PutSpec{Chunks: [][]byte{u.objs[2].Content, []byte("c")}}, false)
+	if hier {
+		// the same content under an unrelated instance name: a failing upload there must not become visible there
+		other := lstore.CASObj("A3@other", "other", a3.Content)
+		put(other, "", lstore.PutSpec{Chunks: [][]byte{other.Content}}, true)
+		put(other, "WrongHash", lstore.PutSpec{Chunks: [][]byte{[]byte("aXa")}}, false)
+		put(other, "SrcErr", lstore.PutSpec{Chunks: [][]byte{other.Content[:2]}, FinalErr: lstore.ErrSource}, false)
+		ops = append(ops, op{"Get:" + other.Name, func(s *lstore.Store, m *model, strict bool) {
+			d, err := s.Get(other.Digest)
+			vsched.Obs("Get:%s=%s", other.Name, status.Code(err))
+			checkRead("Get", other.Name, other.Content, d, err, m, strict, false)
+		}})
+		ops = append(ops, op{"FindMissing:" + other.Name, func(s *lstore.Store, m *model, strict bool) {
+			miss, err := s.FindMissing(other.Digest)
+			if err == nil && !miss[other.Digest.String()] && len(m.ok[other.Name]) == 0 {
+				failf("reported-present-without-successful-upload", "FindMissing reports %s present although no upload under that instance name ever succeeded", other.Name)
+			}
+		}})
+	}
 	for _, o := range append(append([]lstore.Obj{}, u.objs...), u.parent) {
 		o := o
 		ops = append(ops, op{"Get:" + o.Name, func(s *lstore.Store, m *model, strict bool) {
@@ -311,11 +329,45 @@ func firstWords(s string) string {
 	return string(b)
 }
 
-func seqBody(g lstore.Geometry, depth int) func() {
+func seqBody(g lstore.Geometry, depth int) func() { return seqBodyFrom(g, depth, "") }
+
+// seqBodyFrom starts the enumeration from a non-initial state: "steady" = the initial phase with
+// several new blocks is over; "aged" = additionally the parent P8, A3 and B5 have been uploaded and
+// pushed into an old block (so that reads refresh them).
+func seqBodyFrom(g lstore.Geometry, depth int, start string) func() {
 	return func() {
 		med := lstore.NewMedia(g)
 		s := lstore.Open(g, med)
 		m := &model{ok: map[string][][]byte{}}
+		if start != "" {
+			inst := ""
+			if g.Hierarchical {
+				inst = "a"
+			}
+			u := casUniverse(inst)
+			fill := func(i int) {
+				f := lstore.CASObj("fill", inst, []byte(fmt.Sprintf("fill%04d", i))[:g.BlockSize()])
+				if err := s.PutOK(f.Digest, f.Content); err != nil {
+					vsched.HarnessFail("prefill: %v", err)
+				}
+			}
+			fill(0)
+			fill(1)
+			if start == "aged" {
+				for _, o := range []lstore.Obj{u.parent, u.objs[0], u.objs[1]} {
+					if err := s.PutOK(o.Digest, o.Content); err != nil {
+						vsched.HarnessFail("prefill: %v", err)
+					}
+					m.add(o.Name, o.Content)
+				}
+				for i := 2; !s.NeedsRefresh(u.parent.Digest) || !s.NeedsRefresh(u.objs[1].Digest); i++ {
+					if i > 8 || !s.Held(u.parent.Digest) {
+						vsched.HarnessFail("could not age the prefilled objects")
+					}
+					fill(i)
+				}
+			}
+		}
 		var ops []op
 		if g.AC {
 			ops = acOps(acUniverse())
@@ -412,6 +464,15 @@ func main() {
 			d = depth + 1
 		}
 		scs = append(scs, mc.Scenario{Name: "seq/" + name, Space: fmt.Sprintf("all operation sequences of length %d over the alphabet (good uploads in 2 chunkings, 4 kinds of failing uploads, Get of every key, GetFromComposite/Get of both slices, FindMissing) on geometry %s", d, geos[name]), Bound: 0, ShardDepth: 2, Body: seqBody(geos[name], d), Budget: budgetDur(ev.Pick(r, 100, 900))})
+	}
+	for _, st := range []string{"steady", "aged"} {
+		for _, name := range []string{"flat-cas-dev", "flat-cas-dev-raw", "hier-cas-dev"} {
+			gg := geos[name]
+			if st == "aged" {
+				gg.Old, gg.Spare = 2, 2 // room for the aged objects to sit in old blocks without being evicted at once
+			}
+			scs = append(scs, mc.Scenario{Name: "seq-" + st + "/" + name, Space: fmt.Sprintf("as seq/%s but starting from a non-initial state (%s), depth %d", name, st, depth), Bound: 0, ShardDepth: 2, Body: seqBodyFrom(gg, depth, st), Budget: budgetDur(ev.Pick(r, 100, 900))})
+		}
 	}
 	scs = append(scs, concScenarios(r, base)...)
 	mc.Run(r, scs)
